@@ -201,6 +201,39 @@ def call_forked(datadir, blocks, max_size, crash_at=None, count=False, fail_at=N
                     return _FileProxy(real_open(file, mode, *a, **kw), ctr)
 
                 builtins.open = wrapped_open
+                import io
+                io.open = wrapped_open
+                # an implementation may work on OS-level descriptors instead of file objects: the same operation boundaries there
+                fds = set()
+                r_open, r_write, r_close, r_fsync = os.open, os.write, os.close, os.fsync
+
+                def os_open(path, flags, *a, **kw):
+                    inside = isinstance(path, (str, bytes, os.PathLike)) and kw.get("dir_fd") is None and \
+                        os.path.realpath(os.fsdecode(path)).startswith(root + os.sep) and (flags & (os.O_WRONLY | os.O_RDWR))
+                    if not inside:
+                        return r_open(path, flags, *a, **kw)
+                    ctr.tick("open")
+                    fd = r_open(path, flags, *a, **kw)
+                    fds.add(fd)
+                    return fd
+
+                def os_write(fd, data):
+                    if fd in fds:
+                        ctr.tick("write")
+                    return r_write(fd, data)
+
+                def os_close(fd):
+                    if fd in fds:
+                        fds.discard(fd)
+                        ctr.tick("close")
+                    return r_close(fd)
+
+                def os_fsync(fd):
+                    if fd in fds:
+                        ctr.tick("flush")
+                    return r_fsync(fd)
+
+                os.open, os.write, os.close, os.fsync = os_open, os_write, os_close, os_fsync
             status = _call(datadir, blocks, max_size)
             os.write(w, json.dumps({"status": status, "ops": ctr.ops}).encode())
             code = 0
